@@ -39,6 +39,9 @@ type c07Case struct {
 	// Wrap: a post-processor substitutes the component registered under the requested name after its
 	// initialisation: "other" = by a wrapper of an unrelated type, "i1" = by a wrapper implementing I1
 	Wrap string `json:"wrap,omitempty"`
+	// Preset: the holder is registered with the field already holding an (unregistered) object of
+	// an assignable type
+	Preset bool `json:"field_preset,omitempty"`
 }
 
 // c07Sub substitutes the named component after initialisation.
@@ -107,12 +110,15 @@ func c07Gen(c *core.Ctx) func(yield func(c07Case) bool) {
 								if desc && len(pop) < 2 {
 									continue
 								}
-								if !yield(c07Case{pop, req, kind, opt, sib, desc, ""}) {
+								if !yield(c07Case{pop, req, kind, opt, sib, desc, "", false}) {
+									return
+								}
+								if sib == 0 && !desc && !yield(c07Case{pop, req, kind, opt, sib, desc, "", true}) {
 									return
 								}
 								if sib == 0 && !desc && len(pop) <= 2 {
 									for _, w := range []string{"other", "i1"} {
-										if !yield(c07Case{pop, req, kind, opt, sib, desc, w}) {
+										if !yield(c07Case{pop, req, kind, opt, sib, desc, w, false}) {
 											return
 										}
 									}
@@ -156,6 +162,11 @@ func c07Run(c *core.Ctx) {
 			fields = []reflect.StructField{{Name: "G", Type: tI2, Tag: `wire:"nobody,required=false"`}, main}
 		}
 		holder := reflect.New(reflect.StructOf(fields))
+		var decoy any
+		if cs.Preset {
+			decoy = scen.BuildInst(scen.Inst{Typ: "TA", Name: "decoy"}, 99) // never registered
+			holder.Elem().FieldByName("F").Set(reflect.ValueOf(decoy))
+		}
 		var comps []any
 		user := map[string]bool{}
 		var target any
@@ -230,7 +241,11 @@ func c07Run(c *core.Ctx) {
 			c.Report(key("optfail"), "optional-failed", fmt.Sprintf("optional by-name point `%s` (%s) made start-up fail: %s", tag, why, scen.FirstLine(o.Err)), cs)
 		default:
 			c.Outcome(sig + "untouched")
-			if scen.IdOf(got) != "-" && got != nil {
+			if cs.Preset {
+				if got != decoy {
+					c.Report(key("touched"), "optional-touched", fmt.Sprintf("optional by-name point `%s` (%s) was not left untouched: it was registered holding an object of its own and now holds %s", tag, why, scen.IdOf(got)), cs)
+				}
+			} else if scen.IdOf(got) != "-" && got != nil {
 				c.Report(key("touched"), "optional-touched", fmt.Sprintf("optional by-name point `%s` (%s) was not left untouched: holds %s", tag, why, scen.IdOf(got)), cs)
 			}
 		}
